@@ -69,6 +69,7 @@ ANALYSES = {
     "room": lambda m: (lambda s: {"status": s.status, "objective": s.objective_value if s.status == "optimal" else None})(_room(m)),
     "minimal_medium(components)": lambda m: (lambda s: {"n": None if s is None else len(s)})(minimal_medium(m, 0.5, minimize_components=True)),
     "gapfill": lambda m: {"n": len(_gapfill(m))},
+    "gapfill(empty-universal)": lambda m: {"n": len(_gapfill(m, empty=True))},
     "production_envelope": lambda m: {"shape": list(production_envelope(m, [m.reactions.R1], points=3).shape)},
     "model.summary": lambda m: {"objective": m.summary()._objective_value},
     "metabolite.summary": lambda m: {"n": len(m.metabolites[0].summary()._flux)},
@@ -78,7 +79,7 @@ USES_FIXED_OBJECTIVE = ("pfba", "fva-pfba_factor", "model.summary", "metabolite.
 QUICK = ["optimize", "optimize(objective_sense,raise_error)", "slim_optimize", "fva", "fva-fraction", "fva-pfba_factor", "find_blocked_reactions", "find_essential_genes",
          "pfba", "linear-moma", "single_reaction_deletion", "single_gene_deletion", "double_gene_deletion",
          "single_gene_deletion(linear moma)", "loopless_solution", "assess", "assess(existing-demand)", "minimal_medium",
-         "model.summary", "production_envelope", "minimal_medium(components)", "gapfill"]
+         "model.summary", "production_envelope", "minimal_medium(components)", "gapfill", "gapfill(empty-universal)"]
 
 
 def _room(m):
@@ -89,14 +90,32 @@ def _room(m):
     return room(m, solution=Solution(objective_value=10.0, status="optimal", fluxes=ref))
 
 
-def _gapfill(m):
+_UNIVERSAL = {}
+_CHANGED = []
+
+
+def _gapfill(m, empty=False):
+    """gapfill takes a second model, the universal one, which it must not modify either: one universal model per path is
+    handed to both calls and its reaction list is part of what the two calls are compared on"""
     from cobra import Model, Reaction
     from cobra.flux_analysis import gapfill
-    uni = Model("universal")
-    r = Reaction("R9", lower_bound=0, upper_bound=10)
-    uni.add_reactions([r])
-    r.add_metabolites({m.metabolites.A.copy(): -1, m.metabolites.B.copy(): 1})
-    return gapfill(m, uni, demand_reactions=False)[0]
+    key = (id(m), empty)
+    if key not in _UNIVERSAL:
+        _UNIVERSAL.clear()
+        uni = Model("universal")
+        if not empty:
+            r = Reaction("R9", lower_bound=0, upper_bound=10)
+            uni.add_reactions([r])
+            r.add_metabolites({m.metabolites.A.copy(): -1, m.metabolites.B.copy(): 1})
+        _UNIVERSAL[key] = uni
+    uni = _UNIVERSAL[key]
+    try:
+        out = gapfill(m, uni, demand_reactions=empty)[0]
+    finally:
+        left = sorted(r.id for r in uni.reactions) + sorted(x.id for x in uni.metabolites)
+        if left != ((["R9", "A", "B"]) if not empty else []):
+            _CHANGED.append(left)
+    return out
 
 
 def _same_result(E, a, b, name):
@@ -182,7 +201,10 @@ def c13_analysis(E, names=QUICK, sym=(("EX_A",), ("DM_B",)), objectives=("DM_B:m
             return fn(m), None
         except Exception as e:
             return None, e
+    del _CHANGED[:]
     r1, e1 = run()
+    if name.startswith("gapfill"):
+        E.prove(not _CHANGED, "the-universal-model-given-to-gapfill-is-unchanged", left=str(_CHANGED[:1]))
     mid = observe(m)
     same(E, before, mid, "model-unchanged", what=name, raised=type(e1).__name__ if e1 else None)
     r2, e2 = run()
